@@ -127,6 +127,24 @@ func checkC01(c c01Case) (ci caseInfo, err error) {
 	if len(b) == 0 {
 		return ci, fmt.Errorf("complete message %q (route %s) encodes to nothing", msg.Header(), routeNames[c.Route%6])
 	}
+	// history of the decoder: a few damaged variants of the same frame go through it first (a network peer
+	// sends garbage now and then); decoding a later valid frame must not depend on what was rejected before
+	if noise := int(c.Mask>>8) % 4; noise > 0 && len(b) > 16 && len(b) < 4096 {
+		for k := 0; k < noise; k++ {
+			bad := append([]byte(nil), b...)
+			at := 14 + int(model.Mix64(c.Mask+uint64(k))%uint64(len(b)-14))
+			switch k % 3 {
+			case 0:
+				bad = patchLen(bad[:at]) // truncated inside the item, outer length patched
+			case 1:
+				bad[at] ^= 0xFF
+			default:
+				bad = patchLen(append(bad[:at:at], 0x93, 0x04, 0x7F, 0xC0, 0x00, 0x00)) // a NaN item: refused by the constructor
+			}
+			try(func() { hsms.Parse(bad) })
+		}
+		ci.label("decoder-saw-damaged-frames-first")
+	}
 	dec, ok := hsms.Parse(b)
 	if !ok {
 		return ci, fmt.Errorf("hsms.Parse rejects the encoding of %q, item %s (bytes %s)", msg.Header(), briefOf(c.Tree), hexPrefix(b, 40))
